@@ -358,7 +358,7 @@ func (st *prodState) runActor(cl *kgo.Client, client string, ai int, a plan.Acto
 			st.mu.Unlock()
 			if !already {
 				t0 := s.Now()
-				cl.Close()
+				s.CloseCl(cl, false)
 				s.Max("close_ms_max", int64((s.Now()-t0)/time.Millisecond))
 				st.mu.Lock()
 				st.closed[client] = true
@@ -581,11 +581,11 @@ func scenProduce(s *Sim) {
 func closeBounded(s *Sim, cl *kgo.Client, name string) bool {
 	t0 := s.Now()
 	done := make(chan struct{})
-	go func() { cl.Close(); close(done) }()
+	go func() { s.CloseCl(cl, s.P.Knob("block_rebalance", 0) != 0); close(done) }()
 	select {
 	case <-done:
-	case <-time.After(5 * time.Minute):
-		s.Violf("C13/hang/close", "Close of %s did not return within 5m\n%s", name, goroutineDump("kgo"))
+	case <-time.After(s.CloseBoundAtLeast(cl, 5*time.Minute)):
+		s.Violf("C13/hang/close", "Close of %s did not return within 5m (or the bound from its time-outs)\n%s", name, goroutineDump("kgo"))
 		return false
 	}
 	s.Max("close_ms_max", int64((s.Now()-t0)/time.Millisecond))
